@@ -5,15 +5,20 @@ from histlib import ESZ, UNLIMITED, prod
 TRUSTED = ["C13: tools/histlib.py resize_arr oracle and the hist harness glue"]
 
 
-def one_history(rng, shrink_grow=False):
+def one_history(rng, shrink_grow=False, spec_safe=False):
     dt = rng.choice(["int32", "float64", "uint8", "int16", "uint64", "float32"])
+    ext = None
+    if rng.random() < 0.15:     # resizable datasets of the array / enum / opaque / reference kinds (element size != base type size)
+        ext = histgen.rand_ext_kind(rng, spec_safe, vlen=False)
+        dt = ext["dtype"]
     rank = rng.choice([1, 1, 2, 2, 3])
     dims = [rng.choice([1, 2, 3, 5, 8, 13]) for _ in range(rank)]
     chunk = [max(1, min(d, rng.choice([1, 2, 3, 4, d]))) for d in dims]
     maxd = [rng.choice([UNLIMITED, d, d + rng.choice([1, 4, 9])]) for d in dims]
-    ops = [{"op": "mkds", "path": "/r", "dtype": dt, "dims": dims, "chunk": chunk, "maxdims": maxd}]
+    ops = [dict({"op": "mkds", "path": "/r", "dtype": dt, "dims": dims, "chunk": chunk, "maxdims": maxd}, **(ext or {}))]
+    W = lambda shape: histgen.write_op(rng, "/r", dict(ext or {"dtype": dt}, dims=shape))
     if rng.random() < 0.9:
-        ops.append({"op": "write", "path": "/r", "val": histgen.rand_data(rng, dt, prod(dims)).hex()})
+        ops.append(W(dims))
     cur = list(dims)
     shrunk = [False] * rank
     for _ in range(rng.choice([1, 2, 4, 8, 12])):
@@ -35,7 +40,7 @@ def one_history(rng, shrink_grow=False):
         shrunk = [s or (b < a) for s, a, b in zip(shrunk, cur, nd)]
         cur = nd
         if rng.random() < 0.45:
-            ops.append({"op": "write", "path": "/r", "val": histgen.rand_data(rng, dt, prod(cur)).hex()})
+            ops.append(W(cur))
             shrunk = [False] * rank
         if rng.random() < 0.2:
             ops.append({"op": "setattr", "path": "/r", "name": "6e", "kind": "i32", "val": "07000000"})
